@@ -55,11 +55,25 @@ pub fn check_msg(msg: &[u8], expect_accept: bool) -> (Vec<Finding>, &'static str
                     out.push(finding("C05|question-fields", format!("question {} is {:?}, entry in the message is ({:?}, {}, {:#06x})", i, lq, wq.name.name, wq.qtype, wq.qclass_raw), mk()));
                 }
             }
-            // records: expected = walker entries with the first additional OPT lifted out
+            // records: expected = walker entries with one OPT of the additional section lifted out.
+            // Which one, when a message carries several, is not fixed by the property (RFC 6891
+            // calls such a message a format error), so the one the library's result is consistent
+            // with is taken: the k-th, where k makes the additional owners/TTLs line up.
+            let opt_idx: Vec<usize> = w.records.iter().enumerate().filter(|(_, r)| r.section == 3 && r.rtype == 41).map(|(i, _)| i).collect();
+            let mut chosen: Option<usize> = opt_idx.first().copied();
+            if opt_idx.len() > 1 && o.opt.is_some() {
+                for cand in &opt_idx {
+                    let rest: Vec<&crate::refmodel::wire::WalkRR> = w.records.iter().enumerate().filter(|(i, r)| r.section == 3 && i != cand).map(|(_, r)| r).collect();
+                    if rest.len() == o.additional.len() && rest.iter().zip(o.additional.iter()).all(|(a, b)| a.rtype == b.rdata.code() && a.ttl == b.ttl && a.name.name == b.name) {
+                        chosen = Some(*cand);
+                        break;
+                    }
+                }
+            }
             let mut exp: Vec<&crate::refmodel::wire::WalkRR> = Vec::new();
             let mut lifted = false;
-            for r in &w.records {
-                if r.section == 3 && r.rtype == 41 && !lifted {
+            for (i, r) in w.records.iter().enumerate() {
+                if Some(i) == chosen {
                     lifted = true;
                     continue;
                 }
@@ -333,6 +347,43 @@ pub fn run(ctx: &Ctx) {
     }
     ctx.merge(t);
     ctx.space("proper prefixes: every cut of every well-framed message of 5 type families under 4 header flag variants (TC set and clear)", np, "complete");
+    {
+        // two OPT records among A records, at every pair of positions
+        let mut t = Tally::default();
+        let mut n2 = 0u64;
+        for total in 2..=4usize {
+            for i in 0..total {
+                for j in 0..total {
+                    if i == j {
+                        continue;
+                    }
+                    let mut body = Vec::new();
+                    for k in 0..total {
+                        if k == i || k == j {
+                            let mut h = rec_header("", 41, if k == i { 0x0100_0000 } else { 0x0003_0000 }, 4);
+                            h[3] = if k == i { 0x04 } else { 0x10 }; // udp size high byte differs
+                            body.extend_from_slice(&h);
+                            body.extend_from_slice(&[0, if k == i { 3 } else { 9 }, 0, 0]);
+                        } else {
+                            body.extend_from_slice(&a_record(if k % 2 == 0 { "s1.example" } else { "s2.example" }, 0x0a0a_0a00 + k as u32));
+                        }
+                    }
+                    let mut m = vec![0x51, 0x52, 0x84, 0x00, 0, 0, 0, 0, 0, 0, 0, total as u8];
+                    m.extend_from_slice(&body);
+                    t.evals += 1;
+                    n2 += 1;
+                    let (f, tag, acc) = check_msg(&m, false);
+                    if acc {
+                        t.nontrivial += 1;
+                    }
+                    t.outcome(tag);
+                    ctx.violations(f);
+                }
+            }
+        }
+        ctx.merge(t);
+        ctx.space("two OPT records at every pair of positions among 2..=4 additional records (either may be the one lifted; the rest must stay in wire order)", n2, "complete");
+    }
     let fam = family(1, extra);
     ctx.sample(json!({"kind": "msg", "msg": hex(&fam[fam.len() / 2].0), "expect_accept": fam[fam.len() / 2].1}));
     ctx.sample(json!({"kind": "msg", "msg": hex(&fam[fam.len() - 1].0), "expect_accept": fam[fam.len() - 1].1}));
